@@ -243,6 +243,14 @@ def forced(mw=2, reusable=False, queued=3):
              ops)
 
 
+def forced_then_graceful(mw=2, second_wait=True):
+    """shutdown(wait=False, kill_workers=True), then a plain shutdown(wait=...) of the same
+    executor: the forced request must not be downgraded by the later graceful call."""
+    return P(f"forced-then-graceful-w{mw}-{second_wait}", pool(max_workers=mw),
+             [NEW, sub("g", "gate"), sub("q", "ok", 1), ["shutdown", False, True],
+              ["shutdown", second_wait, False]])
+
+
 def forced_with_callbacks(mw=1, reusable=False):
     """Forced shutdown while pending futures carry done-callbacks that re-enter the executor
     (retry by submit, shutdown)."""
